@@ -28,6 +28,7 @@ ASSUMPTIONS = ["substitution is checked by twin rendering through the real inter
 MIN_COUNTS = {"quick": {"nontrivial": 2800, "substitutions_compared": 2200, "failing_calls_checked": 300, "conditionals_checked": 80, "projection_fills": 700},
               "thorough": {"nontrivial": 60000, "substitutions_compared": 50000, "failing_calls_checked": 5000, "conditionals_checked": 80, "projection_fills": 15000}}
 CASE_TIMEOUT = 300
+MEM_LIMIT_GB = 6
 
 ARGS = [I(0), I(3), I(-2), R(2.5), L([I(1), I(2), I(3)]), L([]), L([R(1.5), R(0.5)]), S("ab"), L([L([I(1)]), L([I(2), I(3)])]), I(7)]
 NUMARGS = [I(0), I(3), I(-2), R(2.5), I(7), L([I(1), I(2), I(3)]), L([I(4), I(5), I(6)])]
@@ -76,7 +77,7 @@ PROJ3 = [("a;;", [1, 2]), (";b;", [0, 2]), (";;c", [0, 1]), ("a;b;", [2]), ("a;;
 def cases(tier, seed):
     rng = random.Random(3000 + seed)
     out = []
-    n = 2600 if tier == "quick" else 60000
+    n = 2600 if tier == "quick" else 75000
     forms1 = ["direct", "var", "at", "each", "dotf"]
     forms2 = ["direct", "var", "at", "over", "each2"]
     for i in range(n):
